@@ -16,7 +16,9 @@ CFG = dict(
                "byte-level correspondence on ~1.7k cases per quick run, and the recogniser / reader are evaluated on the text the implementation wrote.",
     level_note="HTML views are partial: html/template and encoding/json are trusted, the harness fetches /top /flamegraph /peek /source through "
                "httptest and counts raw payload markers. F11 rests on the stated reading of the Callgrind manual (positions are relative to the last cost line).",
-    rule="end-to-end streams: deterministic grids (call tree with nodes below the cut-off x call_tree x nodecount x granularity; "
+    rule="round 6: value-dependent FormatValue (zero without unit, auto-scaled units, unit on positive values only) x hostile units and "
+         "sample types x zero / negative / extreme totals, synthetic, through report.GetDOT with -mean and through driver.PProf "
+         "(-mean, -sample_index, -diff_base, -unit, sessions). End-to-end streams: deterministic grids (call tree with nodes below the cut-off x call_tree x nodecount x granularity; "
          "-diff_base/-base against a bigger base x 6 option sets x dot/callgrind; two fixed interactive histories), random option combinations "
          "(1..4 of 31 options) and random session histories on profiles with 8..20 functions, web requests with option parameters; TrimTree on "
          "random forests with random listed orders / kept sets. Other inputs: (esc) strings over an alphabet of DOT/callgrind/HTML metacharacters; (dot) graphs handed to ComposeDot -- synthetic ones "
